@@ -81,15 +81,29 @@ def run(ctx):
     getb = ctx.body(BF + "get_bit")
     # --- share
     for name, b, acc in (("add_hash", add, BF + "set_bit"), ("contains_hash", con, BF + "get_bit")):
+        clos = [cfg.body(r) for r in f.closures_of(b.path)]
         cs = [callee(t) for _, t in b.calls()]
-        ok = cs.count(BF + "get_probes") == 1 and acc in cs
-        ctx.ob("R15-share", "%s|uses get_probes and %s" % (name, acc.split("::")[-1]), ok, b.rec["sp"], "calls: %s" % [c.split("::")[-1] for c in cs])
+        cs_all = cs + [callee(t) for cb_ in clos for _, t in cb_.calls()]
+        ok = cs.count(BF + "get_probes") == 1 and acc in cs_all
+        ctx.ob("R15-share", "%s|uses get_probes and %s" % (name, acc.split("::")[-1]), ok, b.rec["sp"], "calls: %s" % [c.split("::")[-1] for c in cs_all if c])
         # the probe passed to the accessor derives from get_probes' result
         for bi, t in b.calls():
             if callee(t) == acc:
                 pv = b.provenance(t["args"][1])
                 ok2 = BF + "get_probes" in {norm_fn(c) for c in pv.callees()}
                 ctx.ob("R15-share", "%s|probe argument comes from get_probes" % name, ok2, t["sp"], "")
+        # iterator form: the accessor is called in a closure handed to an adaptor over get_probes(..)
+        for cb_ in clos:
+            for bi, t in cb_.calls():
+                if callee(t) == acc:
+                    pv = cb_.provenance(t["args"][1])
+                    from_item = any(i >= 2 for i, _ in pv.params)
+                    fed = False
+                    for ab, at in b.calls():
+                        if any(g.startswith("{closure@") and g.split(":")[1] == cb_.rec["sp"].split(":")[1] for g in at.get("ga", [])):
+                            rp = b.provenance(at["args"][0])
+                            fed = fed or (BF + "get_probes") in {norm_fn(c) for c in rp.callees()}
+                    ctx.ob("R15-share", "%s|probe argument comes from get_probes" % name, from_item and fed, t["sp"], "closure over the items of get_probes(..)")
         # no direct access to self.bits
         direct = []
         for bi, blk in enumerate(b.blocks):
@@ -199,14 +213,23 @@ def run(ctx):
             continue
         allowed_edges.append(rules.bool_switch_edge(con, sb, (not truth) if s["negated"] else truth))
     falses = []
+    n_all = 0
     for (bi, kind, rec) in util.ret_defs(con):
         if kind == "stmt" and rec["rv"]["k"] == "Use" and (util.op_const(rec["rv"]["o"][0]) or {}).get("v") == "0":
             falses.append((bi, rec))
         elif kind == "stmt" and rec["rv"]["k"] == "Use" and (util.op_const(rec["rv"]["o"][0]) or {}).get("v") == "1":
             pass
+        elif kind == "call" and norm_fn(rec.get("fn")) in ("core::iter::traits::iterator::Iterator::all",):
+            # iterator form: `get_probes(hash).into_iter().all(|probe| ..get_bit(probe)..)` — false only when the closure is false for a probe
+            rp = con.provenance(rec["args"][0])
+            over_probes = (BF + "get_probes") in {norm_fn(c) for c in rp.callees()}
+            clos = [cfg.body(r) for r in f.closures_of(con.path)]
+            tests_bit = any(callee(t) == BF + "get_bit" for cb_ in clos for _, t in cb_.calls())
+            n_all += 1
+            ctx.ob("R15-false", "contains_hash|all(probe bit set)", over_probes and tests_bit, rec.get("sp", ""), "all() over get_probes(..) with a closure that reads the bit through get_bit")
         else:
             ctx.ob("R15-false", "contains_hash|return value is a literal", False, rec.get("sp", ""), "unexpected computation of the result")
-    ctx.floor("`false` results in contains_hash", len(falses), 2)
+    ctx.floor("`false` results in contains_hash", len(falses) + n_all, 2)
     for k, (bi, rec) in util.ordinal_keys(falses, lambda x: "contains_hash|false"):
         ok = con.edges_dominate(allowed_edges, bi)
         ctx.ob("R15-false", k, ok, rec["sp"], "dominated by one of: num_entries==0, bits.is_empty(), probed bit==0" if ok else "returns false outside the enumerated conditions (would be a false negative)")
